@@ -535,6 +535,9 @@ class WebSocket:
             If None, it will wait forever until receive a close frame.
         """
         if not self.connected:
+            # a close frame was already sent (send_close() or the reply to the
+            # server's close): still release the transport
+            self.shutdown()
             return
         if status < 0 or status >= ABNF.LENGTH_16:
             raise ValueError("code is invalid range")
